@@ -69,13 +69,9 @@ func fieldTypeOf(w *World, fr FieldRef) types.Type {
 	if nt == nil {
 		return nil
 	}
-	st, ok := nt.Underlying().(*types.Struct)
-	if !ok {
-		return nil
-	}
-	for i := 0; i < st.NumFields(); i++ {
-		if st.Field(i).Name() == fr.Field {
-			return st.Field(i).Type()
+	for _, f := range flatFields(nt) {
+		if f.Name == fr.Field {
+			return f.Type
 		}
 	}
 	return nil
